@@ -23,22 +23,45 @@ def splitC (c : Char) : List Char → List (List Char)
 /-- bufio.ReadLine drops "\n" and, before it, one "\r" -/
 def dropCR (l : List Char) : List Char := if l.getLast? == some '\r' then l.dropLast else l
 
-/-- the lines `fileutils.Readln` delivers before `io.EOF`: every "\n"-terminated line without its
-    end-of-line marker, then the unterminated rest when it is not empty (its "\r" stays) -/
-def readLines (txt : List Char) : List (List Char) :=
+/-- size of the `bufio.Reader` buffer (`bufio.NewReader`: defaultBufSize) -/
+def bufSize : Nat := 4096
+
+/-- the lines `fileutils.Readln` delivers WITH a nil error: every "\n"-terminated line without its end-of-line
+    marker, then the unterminated rest when it is not empty (its "\r" stays).
+    `dropFull = true` is the PINNED behaviour (before /repo 34f70d2, F99, found in round 7b): when the
+    unterminated rest fills the buffer exactly (length k·4096, k ≥ 1) `ReadLine` hands out the last chunk with
+    `isPrefix = true`, the next call answers `io.EOF`, `Readln` returned the whole line TOGETHER with `io.EOF`
+    and the callers (`for e == nil`) dropped it.  Since 34f70d2 `Readln` clears an `io.EOF` that comes with
+    a non-empty line: `dropFull = false`. -/
+def readLinesBy (dropFull : Bool) (txt : List Char) : List (List Char) :=
   let ls := splitC '\n' txt
-  ls.dropLast.map dropCR ++ (match ls.getLast? with | some [] => [] | some l => [l] | none => [])
+  ls.dropLast.map dropCR ++ (match ls.getLast? with
+    | some [] => []
+    | some l => if dropFull && l.length % bufSize == 0 then [] else [l]
+    | none => [])
+
+/-- the code as it is (since 34f70d2) -/
+def readLines (txt : List Char) : List (List Char) := readLinesBy false txt
+
+/-- the pinned variant (before 34f70d2) -/
+def readLinesPinned (txt : List Char) : List (List Char) := readLinesBy true txt
 
 /-- `readIdenticalGroupFile` on a file that could be opened: one group per line, `strings.Split(line, ",")`.
     `len(cols) == 0` never holds (dead test of cmd/root.go:301): an empty line is the group `[""]`. -/
-def readGroupFile (txt : String) : List (List String) :=
-  (readLines txt.toList).map fun l => (splitC ',' l).map String.ofList
+def readGroupFileBy (dropFull : Bool) (txt : String) : List (List String) :=
+  (readLinesBy dropFull txt.toList).map fun l => (splitC ',' l).map String.ofList
+
+/-- the code as it is (since 34f70d2) -/
+def readGroupFile (txt : String) : List (List String) := readGroupFileBy false txt
 
 /-- the three states of `-g` -/
 inductive GroupArg where
   | absent                 -- flag not given: `groupfile == "none"`
-  | missing                -- the file cannot be opened
-  | file (txt : String)    -- the file's content
+  | missing                -- the reader fails before the first line: the file cannot be opened, or its name ends in .gz and its content is not gzip
+  | file (txt : String)    -- the content of a plain file
+  | gzfile (txt : String)  -- the content of a .gz file once decompressed (gzip.Reader is trusted); before 34f70d2 the two
+                           -- differed: gzip.Reader hands out its last bytes together with io.EOF, so the pinned Readln
+                           -- lost a full-buffer last line of a plain file only
 
 /-- the groups `RunE` works with: `identicalgroups, err = readIdenticalGroupFile(groupfile)` is followed at
     once by `if f, err = openWriteFile(outtreefile)` — the reader's error is OVERWRITTEN, so a file that
@@ -47,6 +70,7 @@ def groupsOf : GroupArg → Option (List (List String))
   | .absent => none
   | .missing => some []
   | .file txt => some (readGroupFile txt)
+  | .gzfile txt => some (readGroupFileBy false txt)
 
 /-- `for tr := range treechan`: `UpdateTipIndex` (refuses a repeated tip name), `InsertIdenticalTips`,
     print; the first refusal ends the command with an error exit, the trees printed so far stay.
@@ -67,10 +91,6 @@ def cliRepopulateFile (ga : GroupArg) (trees : List T) : List T × Bool :=
 
 /-- `gotree collapse single` on an input of several trees: each one, in order -/
 def cliCollapseSingleAll (ts : List T) : List T := ts.map cliCollapseSingle
-
-/-- `gotree subtree -n '^name$'` on an input of several trees: the trees in which exactly one inner node
-    matches print their subtree, the others print nothing (a log line); exit 0 -/
-def cliSubtreeAll (ts : List T) (name : String) : List T := ts.filterMap (cliSubtree · name)
 
 /-- the text a user writes for a group list: names joined by ",", one group per line -/
 def joinC (c : Char) : List (List Char) → List Char
